@@ -22,6 +22,7 @@ def step (line : String) : String :=
   | "wenc" :: rest => Driver.Wire.run "wenc" rest
   | "wdec" :: rest => Driver.Wire.run "wdec" rest
   | "benc" :: rest => Driver.Wire.run "benc" rest
+  | "bbig" :: rest => Driver.Wire.run "bbig" rest
   | "bdec" :: rest => Driver.Wire.run "bdec" rest
   | "fan" :: rest => Driver.Fanout.run rest
   | "ps" :: rest => Driver.PubSub.run rest
